@@ -15,7 +15,7 @@ RULE = (
     "distinct_nontrivial = distinct (model cell, final call, history signature) tuples"
 )
 REQUIRED = {"calls_monitored": 300, "diff_fresh_vs_history": 40, "diff_fresh_vs_reload": 20, "diff_repeat_reused_settings": 20, "input_snapshots": 200,
-            "final_personalize": 40, "final_estimate": 10, "diff_before_vs_after_history": 20, "diff_refit_vs_its_reload": 4}
+            "final_personalize": 40, "final_estimate": 10, "diff_before_vs_after_history": 20, "diff_refit_vs_its_reload": 4, "cases_with_tiny_prior_std": 5, "diff_repeat_reused_tempered_settings": 8}
 ASSUMPTIONS = [
     "two models 'hold the same parameters' when their parameter tensors are bit-identical; reload is compared only in that case (exactness of reload is C12's job)",
     "after a fit the model state documentedly keeps the training data; the monitor flags only data / individual values that a personalize / estimate / simulate "
@@ -127,6 +127,23 @@ def run_shard(spec, ctx):
                 continue
             path = os.path.join(tmp, "m.json")
             fresh.save(path)
+            tiny_prior = (spec["k"] + i) % 4 == 2
+            if tiny_prior:
+                # a very homogeneous population written by hand into the saved file (admissible parameter values: prior standard deviations
+                # of a few 1e-3); the three model objects of the case are then three loads of that file
+                import json as _json
+
+                with open(path) as fh:
+                    js = _json.load(fh)
+                for pn in ("xi_std", "tau_std"):
+                    if pn in js["parameters"]:
+                        v0_ = js["parameters"][pn]
+                        tiny = float(rng.uniform(2e-3, 8e-3))
+                        js["parameters"][pn] = [tiny] * len(v0_) if isinstance(v0_, list) else tiny
+                with open(path, "w") as fh:
+                    _json.dump(js, fh)
+                fresh, hist = BaseModel.load(path), BaseModel.load(path)
+                ctx.count("cases_with_tiny_prior_std")
             reload_ = BaseModel.load(path)
             reload_same = dig(dict(fresh.parameters)) == dig(dict(reload_.parameters))
         except Exception as e:
@@ -286,6 +303,23 @@ def run_shard(spec, ctx):
                         ctx.count("diff_repeat_reused_settings")
                         if o1 != o2 or o1 != o_rel:
                             ctx.violation(f"api/{what}/repeat-differs", f"{what}: repeating the call with a reused settings object gives another answer", case)
+                        if what != "scipy_minimize":
+                            # non-default options held in nested settings (tempered chains): the object is reused as is, then after its
+                            # iteration count was changed by the caller; each time it must answer like a brand-new object with those options
+                            def tempered(n):
+                                return AlgorithmSettings(what, seed=77, progress_bar=False, n_iter=n, n_burn_in_iter=4,
+                                                         annealing={"do_annealing": True, "initial_temperature": 5.0, "n_plateau": 3, "n_iter_frac": 0.5})
+
+                            st = tempered(12)
+                            a1 = do_call(reload_, what, settings=st, who="reloaded(tempered settings object)")
+                            a2 = do_call(reload_, what, settings=st, who="reloaded(tempered settings object reused)")
+                            a3 = do_call(reload_, what, settings=tempered(12), who="reloaded(new tempered settings object)")
+                            st.parameters["n_iter"] = 20
+                            b1 = do_call(reload_, what, settings=st, who="reloaded(tempered settings object reused with another n_iter)")
+                            b2 = do_call(reload_, what, settings=tempered(20), who="reloaded(new tempered settings object, other n_iter)")
+                            ctx.count("diff_repeat_reused_tempered_settings")
+                            if not (a1 == a2 == a3) or b1 != b2:
+                                ctx.violation(f"api/{what}/repeat-differs", f"{what}: a reused settings object with annealing options answers differently from a new, identical one", case)
                 ctx.distinct(case0["model"], what, tuple(history))
             if i < 1:
                 ctx.sample(dict(case0, history=history, finals=list(dict.fromkeys(finals)), reload_bit_identical=reload_same), limit=1)
